@@ -24,7 +24,7 @@ RULE = ('Hypothesis state machine over a generated budget directory (old ./confi
         'at new paths; no rules file changes without --migrate, and with it every pre-existing file\'s content survives (same path or '
         'backup). Non-trivial = >=2 commands incl. init or --migrate on a budget with >=1 pre-existing config file.')
 ASSUMPTIONS = ['commands run non-interactively (stdin/stdout are not ttys)', 'the output location is the configured output folder (also used for -o in this check)']
-REQUIRED_CLASSES = ['init_on_existing', 'up_migrate', 'legacy_csv_present', 'existing_bak', 'existing_bak_gap', 'old_layout', 'new_layout', 'crlf_files']
+REQUIRED_CLASSES = ['init_on_existing', 'up_migrate', 'legacy_csv_present', 'existing_bak', 'existing_bak_gap', 'user_gitignore', 'old_layout', 'new_layout', 'crlf_files']
 
 SETTINGS_BASE = 'year: 2024\ndata_sources:\n  - name: Bank\n    file: data/bank.csv\n    format: "{date:%Y-%m-%d},{description},{amount}"\n'
 RULES_TXT = '# my rules\n[Netflix]\nmatch: contains("NETFLIX")\ncategory: Subscriptions\nsubcategory: Streaming\ntags: recurring\n'
@@ -38,7 +38,7 @@ shape_st = st.fixed_dictionaries({
     'settings': st.sampled_from(['plain', 'plain', 'with_rules', 'with_rules_views', 'no_trailing_newline', 'absent']),
     'rules': st.sampled_from(['absent', 'present', 'present']),
     'csv': st.sampled_from(['absent', 'rules', 'rules', 'empty']),
-    'bak': st.booleans(), 'baks': st.sampled_from([[], [], ['.bak2'], ['.bak3'], ['.bak2', '.bak3'], ['.bak.old'], ['.backup']]), 'views': st.booleans(), 'notes': st.booleans(), 'old_report': st.booleans(), 'data': st.booleans(),
+    'bak': st.booleans(), 'baks': st.sampled_from([[], [], ['.bak2'], ['.bak3'], ['.bak2', '.bak3'], ['.bak.old'], ['.backup']]), 'views': st.booleans(), 'notes': st.booleans(), 'gitignore': st.sampled_from([None, None, 'node_modules/\n*.pyc\n', '# mine\ndata/\n', 'output/\ndata/\n', '']), 'old_report': st.booleans(), 'data': st.booleans(),
     'crlf': st.sampled_from([False, False, True]),
 })
 
@@ -88,6 +88,10 @@ class Folder:
         if shape['notes']:
             w('config/NOTES.md', 'my notes\n')
             w('README.txt', 'budget readme\n')
+        if shape.get('gitignore') is not None:
+            # the user's own ignore file (the folder may be inside their git repository) - wherever init would put one
+            w('.gitignore', shape['gitignore'])
+            self.bd.write('.gitignore', shape['gitignore'])
         if shape['data']:
             w('data/bank.csv', DATA_TXT)
         if shape['old_report']:
@@ -159,6 +163,8 @@ class Machine(RuleBasedStateMachine):
             self.classes.add('existing_bak')
         if shape.get('baks'):
             self.classes.add('existing_bak_gap')
+        if shape.get('gitignore') is not None:
+            self.classes.add('user_gitignore')
         if shape.get('crlf'):
             self.classes.add('crlf_files')
         self.pre_config = any(shape[k] not in ('absent', False) for k in ('settings', 'rules', 'csv', 'views'))
